@@ -28,7 +28,6 @@ RULE = ("one execution = one threaded executor type over a manual delegate with 
         "placement; distinct & non-trivial = (executor type, history, placement site) where the liveness of threads / weakrefs "
         "was actually sampled after garbage collection")
 REQUIRED = ["line_events", "lock_acquisitions", "vevent_waits"]
-WATCHDOG = {"quick": 300, "thorough": 1200}
 THREADED = ["retry", "poll", "throttle", "timeout"]
 ALL = ["retry", "poll", "throttle", "timeout", "map", "flat_map", "cos"]
 ROOT = os.path.dirname(os.path.dirname(os.path.dirname(os.path.abspath(__file__))))
